@@ -423,7 +423,7 @@ func (s *State) diffIOSACLs(al, bl []*cmd, diff []edit.Range) {
 	// Generate move command which sends add and delete command together
 	// as a single command.
 	// Ignore move if both positions belong to the same block.
-	moveACL := func(a *cmdAndPos, b *cmd, before, i int, moveOK bool) {
+	moveACL := func(a *cmdAndPos, b *cmd, before, i int, moveOK, behindOK bool) {
 		defer func() { a.cmd = nil }()
 		// Must not ignore move, if 'log' attribute has changed.
 		if moveOK && getPrintableCmd(a.cmd, s.a) == s.printNetspocCmd(b) {
@@ -431,7 +431,9 @@ func (s *State) diffIOSACLs(al, bl []*cmd, diff []edit.Range) {
 			if before > 0 && idx2Block[before-1] == oldID {
 				return
 			}
-			if before < len(idx2Block) && idx2Block[before] == oldID {
+			// Line only reaches block behind insert position, if no
+			// line with other action is inserted behind it.
+			if behindOK && before < len(idx2Block) && idx2Block[before] == oldID {
 				return
 			}
 		}
@@ -520,10 +522,12 @@ func (s *State) diffIOSACLs(al, bl []*cmd, diff []edit.Range) {
 			moveOK := true
 			for i, b := range bl[r.LowB:r.HighB] {
 				moveOK = moveOK && action0 == getIOSAction(b)
+				behindOK := !slices.ContainsFunc(bl[r.LowB+i+1:r.HighB],
+					func(c *cmd) bool { return getIOSAction(c) != action0 })
 				p := s.printNetspocCmd(b)
 				p = stripLogRX.ReplaceAllLiteralString(p, "")
 				if cmdPos, found := delMap[p]; found {
-					moveACL(cmdPos, b, r.LowA, i, moveOK)
+					moveACL(cmdPos, b, r.LowA, i, moveOK, behindOK)
 				} else {
 					addACL(b, r.LowA, i)
 				}
